@@ -958,8 +958,10 @@ class GenA:
             t = self.pick('container')
             if t is not None:
                 m, _ = self.latest_model(*t)
+                trace_only = sum((a for n, a in m.contents.items() if not W.msubs[n].is_enzyme), F(0)) < 10 ** 4 * F(1, 10 ** W.units.p)
                 if any(a > 0 and W.msubs[n].kind == M.LIQUID for n, a in m.contents.items()) and \
-                        (rng.random() < 0.4 or not any(s in m.contents for s in sol)):
+                        (rng.random() < 0.4 or not any(s in m.contents for s in sol)) and \
+                        (not trace_only or self.p.get('allow_known')):      # known finding: its witness exercises that region
                     solv = [t[0], t[1]]
         return {'op': 'solution', 'name': name, 'solutes': sol, 'solvent': solv, 'kwargs': kwargs, 'obs': rng.randrange(1 << 30)}
 
